@@ -98,6 +98,9 @@ def interesting_instants(rng, zone, n):
         for mo, da in ((12, 31), (1, 1), (2, 28), (3, 1)):
             out.append(datetime.datetime(y, mo, da, rng.randrange(24), rng.randrange(60), tzinfo=datetime.timezone.utc).timestamp())
     out.append(datetime.datetime(2024, 2, 29, 12, 0, tzinfo=datetime.timezone.utc).timestamp())
+    # beyond 2038: the timestamps of the protocol are UNSIGNED 32-bit seconds
+    out.append(float(2 ** 31 + rng.randrange(0, 10 ** 8)))
+    out.append(float(2 ** 32 - 1 - rng.randrange(20 * 86400, 10 ** 8)))
     while len(out) < n:
         out.append(float(rng.randrange(1_700_000_000, 1_800_000_000)))
     rng.shuffle(out)
